@@ -8,7 +8,7 @@ open Ft
     leader-follower intersector) and "swaps" (`Compute.numSwaps`). -/
 
 /-- a trace row: a list of strings is the header, a list of ints a data row -/
-def parseRow (j : Json) : Except String TRow := do
+def c19ParseRow (j : Json) : Except String TRow := do
   let cells ← asList j
   match cells with
   | c :: _ =>
@@ -17,7 +17,7 @@ def parseRow (j : Json) : Except String TRow := do
     | _ => do pure (TRow.data (← cells.mapM (·.getInt?)))
   | [] => pure (TRow.data [])
 
-def parseTrace (j : Json) : Except String (List TRow) := do (← asList j).mapM parseRow
+def parseTrace (j : Json) : Except String (List TRow) := do (← asList j).mapM c19ParseRow
 
 /-- presented coordinates of a leaf fiber given as [[coord, value], …] -/
 def presentedCoords (dflt : Int) (j : Json) : Except String (List Int) := do
@@ -55,7 +55,7 @@ def dirtyKind : List FiberIn → Option String
     else if !cleanEnd f.a f.b then some "dirty:match-exhausts-one-operand-before-boundary"
     else dirtyKind g
 
-def fiberTags (f : FiberIn) : List String :=
+def c19FiberTags (f : FiberIn) : List String :=
   let l := mergeLabels f.a f.b
   (if f.a.isEmpty && f.b.isEmpty then ["bothEmpty"] else
     (if f.a.isEmpty then ["emptyA"] else []) ++ (if f.b.isEmpty then ["emptyB"] else [])) ++
@@ -73,7 +73,7 @@ def batchingTag (groups : List (List FiberIn)) : String :=
   else if groups.length == 1 then "one-shot"
   else "mixed-batching"
 
-def dedup (l : List String) : List String := l.foldl (fun acc s => if acc.contains s then acc else acc ++ [s]) []
+def c19Dedup (l : List String) : List String := l.foldl (fun acc s => if acc.contains s then acc else acc ++ [s]) []
 
 def handleAnd (j : Json) : Except String Verdict := do
   let n ← fNat j "n"
@@ -108,7 +108,7 @@ def handleAnd (j : Json) : Except String Verdict := do
                     ("lf0", decide (ilf0 = some (dataRows (·.1) : Int))),
                     ("lf1", decide (ilf1 = some (dataRows (·.2) : Int)))]
   let bad := fun (l : List (String × Bool)) => (l.filter (fun p => !p.2)).map (·.1)
-  let tags := dedup ([batchingTag groups, s!"ranks={n}"] ++ (fs.flatMap fiberTags) ++
+  let tags := c19Dedup ([batchingTag groups, s!"ranks={n}"] ++ (fs.flatMap c19FiberTags) ++
     (match dirtyKind' groups with | some k => [k] | none => []) ++
     (if rowsExact then ["rows-exact"] else ["rows-differ-outside-points"]))
   let model := Json.mkObj [("tf", totalJson mtf), ("sa", totalJson msa), ("lf0", jInt mlf0), ("lf1", jInt mlf1),
@@ -132,7 +132,7 @@ def handleLf (j : Json) : Except String Verdict := do
   let ptsAgree := decide (mb.map (traceView n) = ib.map (traceView n))
   let mlf := lfTotal mb
   let ilf := optTotal impl "lf"
-  let tags := dedup ([batchingTag groups, s!"ranks={n}", "leader-follower"] ++
+  let tags := c19Dedup ([batchingTag groups, s!"ranks={n}", "leader-follower"] ++
     (if fs.any (fun f => f.a.isEmpty) then ["emptyA"] else []) ++
     (if decide (mb = ib) then ["rows-exact"] else ["rows-differ-outside-points"]))
   pure { agree := ptsAgree && decide (some mlf = ilf), spec := decide (ilf = some (lfSpecAll fs : Int)),
@@ -166,7 +166,7 @@ def handleSwaps (j : Json) : Except String Verdict := do
     | .fin l => swapsSpecFin e radix l depth sk
     | .inf => swapsSpecInf e radix depth sk
   let nodes := mergeNodes dflt e depth t
-  let tags := dedup ([s!"depth={depth}", s!"below={e}",
+  let tags := c19Dedup ([s!"depth={depth}", s!"below={e}",
       (match lat with | .inf => "lat=N" | .fin _ => "lat=int"),
       (match radix with | none => "radix=inf" | some _ => "radix=int")] ++
     (if presentAgrees dflt e depth t then [] else ["hidden-empty"]) ++
